@@ -89,6 +89,12 @@ func (e *Executor) ExecuteTask(ctx context.Context, pid peer.ID, task *peertask.
 			requestTask.ReconciledLoader.SetRemoteOnline(false)
 			if !isPausedErr(err) {
 				span.SetStatus(codes.Error, err.Error())
+				if verifhook.Enabled && requestTask.Ctx.Err() != nil {
+					// both cases of the select below are ready and select would pick at
+					// random; under simulation the cancelled context wins
+					e.manager.ReleaseRequestTask(pid, task, err)
+					return false
+				}
 				select {
 				case <-requestTask.Ctx.Done():
 				case requestTask.InProgressErr <- err:
